@@ -10,7 +10,8 @@
     on the lumps of this file" ([codec_ok], [wr_len_ok]; that is property C11) is a visible hypothesis.
     [save] returns a flag: [false] when a look inside a writer raised (BSP.save raises, no file is written). *)
 From Coq Require Import List Arith.
-From SV Require Import SM.LazyLumps SM.LazyLumpsProofs.
+From Coq Require Import NArith.
+From SV Require Import SM.LazyLumps SM.LazyLumpsProofs Fmt.BspContainer Fmt.BspContainerProofs.
 Import ListNotations.
 
 Section C10.
@@ -175,3 +176,57 @@ Theorem c10_snapshot_save_refuted :
   fst r = true /\ raw (snd r) 1 = 0 /\ cache (snd r) 1 = Some [2] /\
   raw (snd (save nat (list nat) 0 ex_rd ex_wr g_wdep std_shape (run nat (list nat) 0 ex_rd g_wdep std_shape [0] ex_s0))) 1 = 2.
 Proof. exact snapshot_save_refuted. Qed.
+
+(** ---------------------------------------------------------------------------------------------------------
+    The file container (Fmt/BspContainer.v): header, lump table in either field order, map revision, payload
+    placement in write order, game-lump directory with absolute offsets and the dummy trailing entry, LZMA as an
+    inverse pair.  [layout_ok bsp_layout] and [bsp_layout = std_layout] are instance obligations of the check. *)
+
+(** Reading what was written gives back the container: version, field order, map revision, every lump's version,
+    compressed flag and (decompressed) data, every game lump's id, flags, version and (decompressed) data. *)
+Theorem c10_container_roundtrip : forall compress decompress : list N -> list N,
+  (forall d, decompress (compress d) = d) ->
+  forall (L : layout) (c : container), layout_ok L = true -> wf compress L c = true ->
+  read decompress L (write compress L c) = Some c.
+Proof. exact container_roundtrip. Qed.
+
+(** Payload placement: the segment of every lump of the write order lies exactly at the offset and with the length the
+    table records for it, whatever surrounds the body. *)
+Theorem c10_container_payload_placement : forall (compress : list N -> list N) (L : layout) (c : container) order pos k pre post,
+  In k order -> N.to_nat pos = length pre ->
+  let off := offset_of compress L c pos order k in
+  slice off (len (segment compress L c off k)) (pre ++ body compress L c pos order ++ post) = segment compress L c off k.
+Proof. exact body_slice. Qed.
+
+(** Non-vacuity: the standard layout is fine and a container with L4D2 field order, an LZMA lump, a pakfile and a
+    compressed last game lump is well-formed (and round-trips by the theorem). *)
+Theorem c10_container_hypotheses_satisfiable :
+  layout_ok std_layout = true /\ wf ex_compress std_layout ex_container = true /\
+  (forall d, ex_decompress (ex_compress d) = d) /\
+  read ex_decompress std_layout (write ex_compress std_layout ex_container) = Some ex_container.
+Proof. exact (conj std_layout_ok (conj ex_container_wf (conj ex_lzma_inverse ex_container_roundtrip))). Qed.
+
+(** The non-range conditions of [wf] are necessary (closed witnesses). *)
+Theorem c10_container_compressed_empty_lump_refuted :
+  wf ex_compress std_layout ex_comp_empty = false /\
+  option_map (fun c => nth 1 (c_lumps c) lump0) (read ex_decompress std_layout (write ex_compress std_layout ex_comp_empty))
+  = Some (mkL 0 [93%N] false).
+Proof. exact compressed_empty_lump_refuted. Qed.
+
+Theorem c10_container_compressed_pakfile_refuted :
+  wf ex_compress std_layout ex_comp_pak = false /\
+  option_map (fun c => nth 40 (c_lumps c) lump0) (read ex_decompress std_layout (write ex_compress std_layout ex_comp_pak))
+  = Some (mkL 0 [80%N; 75%N] false).
+Proof. exact compressed_pakfile_refuted. Qed.
+
+Theorem c10_container_game_lump_version_refuted :
+  wf ex_compress std_layout ex_game_ver = false /\
+  option_map (fun c => nth 35 (c_lumps c) lump0) (read ex_decompress std_layout (write ex_compress std_layout ex_game_ver))
+  = Some (mkL 0 [] false).
+Proof. exact game_lump_version_refuted. Qed.
+
+Theorem c10_container_l4d2_first_version_refuted :
+  let f := write ex_compress std_layout ex_l4d2_ver in
+  wf ex_compress std_layout ex_l4d2_ver = false /\ c_l4d2 ex_l4d2_ver = true /\
+  andb (N.eqb (get32 f 4) (l4d2_version std_layout)) (N.eqb (get32 f 8) 0) = false.
+Proof. exact l4d2_first_version_refuted. Qed.
